@@ -5,7 +5,7 @@ cd /verif
 ids="$@"; [ -z "$ids" ] && ids=$(ls benign)
 fail=0
 for id in $ids; do
-  f=/verif/benign/$id/patch.diff; [ -f $f ] || continue
+  f=/verif/benign/$id/patch_head.diff; [ -f $f ] || f=/verif/benign/$id/patch.diff; [ -f $f ] || continue
   if ! git -C /repo apply --check $f 2>/dev/null; then echo "$id NOAPPLY (base moved)"; continue; fi
   git -C /repo apply $f
   bad=$(printf '%s\n' C01 C02 C03 C05 C06 C07 C08 C09 C10 C11 C12 C13 C14 C15 C16 C17 C18 C19 C20 | \
